@@ -103,6 +103,11 @@ def diagnose(tr):
                 (tr["jvp"], tr["jvp2"], "" if tr.get("fwd_intact") else " and modified its inputs", ps[1], tr.get("fwd_error", "")))
     if tr["jac"] and tr["jac"] != [ps[1], 0, 0, ps[1]]:
         return (len(ev), "jacobian() gives %s, expected %s  %s" % (tr["jac"], [ps[1], 0, 0, ps[1]], tr.get("jac_error", "")))
+    if tr.get("hvp"):
+        h = 2 * ps[1] * ps[1]
+        if tr["hvp"] != [h, 2 * h, h, 2 * h, h, 2 * h, h, 2 * h]:
+            return (len(ev), "Hessian-vector products of z = sum(F(x)^2) by reverse-over-reverse / forward-over-reverse / reverse-over-forward, and the traced first-order gradient, are %s, "
+                    "each should be (%d, %d)  %s" % (tr["hvp"], h, 2 * h, tr.get("hvp_error", "")))
     return None
 
 
